@@ -109,3 +109,61 @@ theorem folder_after_calibrate (c : Comp Θ S L σ) (n : Nat) (s : State Θ S L 
   checkpoint_is_returned_state c n s hfolder hn hret
 
 end BlackIt.Calibrator
+
+/-! ## the folder as a directory: only the named files count -/
+namespace BlackIt.Checkpoint.Dir
+variable {B S : Type}
+
+theorem get_put_same (d : Dir B) (n : String) (b : B) : get (put d n b) n = some b := by
+  simp [get, put]
+
+theorem get_put_other (d : Dir B) (n m : String) (b : B) (h : m ≠ n) : get (put d n b) m = get d m := by
+  unfold get put
+  have h1 : ((n, b).1 == m) = false := by simpa using Ne.symm h
+  rw [List.find?_cons_of_neg (by simpa using h1)]
+  congr 1
+  induction d with
+  | nil => rfl
+  | cons e d ih =>
+    by_cases he : e.1 = n
+    · have : (e.1 == m) = false := by rw [he]; simpa using Ne.symm h
+      simp only [List.filter_cons, he, bne_self_eq_false, Bool.false_eq_true, if_false]
+      rw [List.find?_cons_of_neg (by simpa using this), ih]
+    · have : (e.1 != n) = true := by simpa using he
+      simp only [List.filter_cons, this, if_true]
+      by_cases hm : e.1 = m
+      · rw [List.find?_cons_of_pos (by simpa using hm), List.find?_cons_of_pos (by simpa using hm)]
+      · rw [List.find?_cons_of_neg (by simpa using hm), List.find?_cons_of_neg (by simpa using hm), ih]
+
+/-- **a file the library does not name is never looked at**: adding, replacing or removing it changes nothing a restore returns -/
+theorem load_ignores_foreign_file (decode : List B → Option S) (d : Dir B) (name : String) (b : B) (h : name ∉ fileNames) :
+    load decode (put d name b) = load decode d := by
+  unfold load
+  have key : ∀ ns : List String, (∀ n ∈ ns, n ∈ fileNames) → ns.mapM (get (put d name b)) = ns.mapM (get d) := by
+    intro ns
+    induction ns with
+    | nil => intro _; rfl
+    | cons n ns ih =>
+      intro hns
+      simp only [List.mapM_cons]
+      rw [get_put_other d name n b (fun e => h (e ▸ hns n List.mem_cons_self)), ih (fun m hm => hns m (List.mem_cons_of_mem _ hm))]
+  rw [key fileNames (fun _ hn => hn)]
+
+theorem foldl_put_other (contents : String → Option B → B) (d0 : Dir B) (names : List String) (acc : Dir B) (m : String) (h : m ∉ names) :
+    get (names.foldl (fun acc n => put acc n (contents n (get d0 n))) acc) m = get acc m := by
+  induction names generalizing acc with
+  | nil => rfl
+  | cons n ns ih =>
+    simp only [List.foldl_cons]
+    rw [ih _ (fun hm => h (List.mem_cons_of_mem _ hm))]
+    exact get_put_other acc n m _ (fun e => h (e ▸ List.mem_cons_self))
+
+/-- **a save leaves every other file of the folder as it was** -/
+theorem save_keeps_foreign_files (contents : String → Option B → B) (d : Dir B) (m : String) (h : m ∉ fileNames) :
+    get (save contents d) m = get d m :=
+  foldl_put_other contents d fileNames d m h
+
+example : "samplers_pickled.pickle" ∉ fileNames := by decide
+example : load (S := Nat) (fun fs => some fs.length) (save (fun _ _ => (0 : Nat)) []) = some 5 := by decide
+
+end BlackIt.Checkpoint.Dir
